@@ -309,6 +309,10 @@ class Impl(object):
                 return [m["nb_nodes"], m["nb_pages"], m["nb_crawled_pages"], m["nb_tail_nodes"],
                         m["nb_fragmented_nodes"], m["nb_stems"], m["max_tail"]]
             return self.call(go)
+        if op == 46:
+            return self.call(lambda: [t.get_page_indegree(a[0]), t.get_page_outdegree(a[0]), t.get_page_degree(a[0]),
+                                      t.get_page_indegree(a[0], weighted=True), t.get_page_outdegree(a[0], weighted=True),
+                                      t.get_page_degree(a[0], weighted=True)])
         if op == 40:
             return self.call(lambda: list(t.expand_prefix(a[0])))
         if op == 41:
